@@ -284,10 +284,19 @@ theorem reduce_dms_value (d m s : ℚ) :
   have m1q : ((M1 % 60 : ℤ) : ℚ) ≤ 59 := by exact_mod_cast (by omega : M1 % 60 ≤ 59)
   have t0q : (0 : ℚ) ≤ ((T % 360 : ℤ) : ℚ) := by exact_mod_cast t0
   have t1q : ((T % 360 : ℤ) : ℚ) ≤ 359 := by exact_mod_cast (by omega : T % 360 ≤ 359)
-  refine ⟨((T % 360 : ℤ) : ℚ) + ((M1 % 60 : ℤ) : ℚ) / 60 +
-      (dmsSec a b c - 60 * ((⌊dmsSec a b c / 60⌋ : ℤ) : ℚ)) / 3600, ?_, by linarith, by linarith, T / 360, by linarith⟩
-  unfold dmsSign
-  rfl
+  set P : ℚ := ((T % 360 : ℤ) : ℚ) + ((M1 % 60 : ℤ) : ℚ) / 60 +
+      (dmsSec a b c - 60 * ((⌊dmsSec a b c / 60⌋ : ℤ) : ℚ)) / 3600 with hP
+  have hP0 : 0 ≤ P := by rw [hP]; linarith
+  have hP1 : P < 360 := by rw [hP]; linarith
+  refine ⟨P, ?_, hP0, hP1, T / 360, by rw [hP]; linarith⟩
+  -- the final `reduce_deg` is the identity: the exact sum is already inside (-360, 360)
+  have hin : |dmsSign d m s * P| < 360 := by
+    unfold dmsSign
+    split_ifs
+    · rw [abs_of_nonpos (by linarith)]; linarith
+    · rw [abs_of_nonneg (by linarith)]; linarith
+  have : (if d < 0 ∨ m < 0 ∨ s < 0 then (-1 : ℚ) else 1) = dmsSign d m s := rfl
+  rw [this, reduce_deg_of_lt hin]
 
 /-- C03.dms: `dms2deg` of any three rationals. -/
 theorem dms2deg_spec (d m s : ℚ) :
@@ -524,8 +533,6 @@ theorem modBody_ok (x : ℚ) {y : ℚ} (h : y ≠ 0) :
 
 theorem angle_mod_eq (a : Angle) (b : Operand) : angle_mod a b = modBody a.deg b.val := rfl
 
-theorem angle_rmod_eq (a : Angle) (b : Operand) :
-    angle_rmod a b = modBody (match b with | .ang c => c.deg | .int n => reduce_deg n | .flt x => reduce_deg x) a.deg := by
-  cases b <;> rfl
+theorem angle_rmod_eq (a : Angle) (b : Operand) : angle_rmod a b = modBody b.val a.deg := rfl
 
 end Pymeeus.Refine
